@@ -7,6 +7,9 @@ import Goyang.Lemmas.TypesWfMain
 import Goyang.Lemmas.TypesSpecClaim
 import Goyang.Lemmas.TypesEnumRfc
 import Goyang.Lemmas.TypesFdRfc
+import Goyang.Lemmas.TypesPartOf
+import Goyang.Lemmas.TypesWellLinked
+import Goyang.Lemmas.TypesAgreeFull
 /-
 C09 — type names bind lexically and derived types inherit the whole chain.
 
@@ -1069,6 +1072,207 @@ theorem resolve_fd_rfc (env : Env) (fuel : Nat) (root : Mod) (scope : List Stmt)
   refine ⟨h2, h3, ?_⟩
   rw [hy]
   omega
+
+/-! ## `linkOk` / `PartOfSchema` against the executable `wellLinked` / `partOfSchema`
+
+`specResolve` makes no claim when `wellLinked reg = false` or `partOfSchema reg root = false`; the
+main theorems are stated with the model-side `linkOk reg` and `PartOfSchema reg root`.  For a
+registry produced by loading (`TablesOK`, Lemmas/BridgeRegistry.lean: sequence numbers are positions
+and every entry of `ms.Modules` / `ms.SubModules` is a loaded module of that kind — the invariant
+"`modules` entries are non-submodules") the second follows; the first follows exactly up to
+(sub)modules that belong to no schema, which `Modules.Process` never visits. -/
+
+/-- Loading produces registries that satisfy the table invariant (one statement per load … -/
+theorem loaded_tables_ok (loads : List Stmt) : Goyang.Lemmas.Bridge.TablesOK (Registry.loadAll loads).1 :=
+  Goyang.Lemmas.TypesPartOf.tablesOK_loadAll loads
+
+/-- … or whole texts, each accepted or refused atomically). -/
+theorem loaded_texts_tables_ok (texts : List (List Stmt)) : Goyang.Lemmas.Bridge.TablesOK (Registry.loadTexts texts).1 :=
+  Goyang.Lemmas.TypesPartOf.tablesOK_loadTexts texts
+
+/-- **The registry invariant**: in a registry produced by loading every entry of `ms.Modules` is a
+loaded module that is not a submodule. -/
+theorem modules_entries_nonsub (reg : Registry) (h : Goyang.Lemmas.Bridge.TablesOK reg) :
+    ∀ top ∈ Identity.moduleEntries reg, top ∈ reg.mods ∧ top.isSub = false :=
+  Goyang.Lemmas.TypesPartOf.moduleEntries_nonSub h
+
+/-- `PartOfSchema` implies the Bool check `partOfSchema` of the executable specification, for loaded registries. -/
+theorem partOfSchema_of_PartOfSchema (reg : Registry) (h : Goyang.Lemmas.Bridge.TablesOK reg) (root : Mod)
+    (hp : PartOfSchema reg root) : partOfSchema reg root = true :=
+  Goyang.Lemmas.TypesPartOf.partOfSchema_of_PartOfSchema h hp
+
+/-- When `Modules.Process` linked everything without error, every include and import statement of
+every part of a schema names a loaded (sub)module. -/
+theorem linkOk_resolved (reg : Registry) (hok : linkOk reg = true) :
+    ∀ m ∈ reg.mods, PartOfSchema reg m →
+      (m.includes.all fun i => (reg.findModule true i).isSome) = true ∧
+      (m.imports.all fun i => (reg.findModule false i).isSome) = true :=
+  Goyang.Lemmas.TypesWellLinked.linkOk_resolved reg hok
+
+/-- `linkOk` implies the Bool check `wellLinked` of the executable specification when every loaded
+(sub)module is part of a schema … -/
+theorem wellLinked_of_linkOk (reg : Registry) (hok : linkOk reg = true)
+    (hall : ∀ m ∈ reg.mods, PartOfSchema reg m) : wellLinked reg = true :=
+  Goyang.Lemmas.TypesWellLinked.wellLinked_of_linkOk reg hok hall
+
+/-- … and in general exactly when the (sub)modules that are part of no schema have no dangling
+include or import either. -/
+theorem wellLinked_iff_of_linkOk (reg : Registry) (hok : linkOk reg = true) :
+    wellLinked reg = true ↔
+      ∀ m ∈ reg.mods, ¬ PartOfSchema reg m →
+        (m.includes.all fun i => (reg.findModule true i).isSome) = true ∧
+        (m.imports.all fun i => (reg.findModule false i).isSome) = true :=
+  Goyang.Lemmas.TypesWellLinked.wellLinked_iff_of_linkOk reg hok
+
+/-- The unrestricted implication is FALSE, also for registries produced by loading: a submodule that
+nobody includes is never visited by `Modules.Process` (no error is reported for its unresolved import —
+replayed on the Go code), while `wellLinked` looks at every loaded (sub)module. -/
+theorem wellLinked_of_linkOk_fails :
+    ¬ ∀ reg : Registry, Goyang.Lemmas.Bridge.TablesOK reg → linkOk reg = true → wellLinked reg = true := by
+  intro h
+  have hT : Goyang.Lemmas.Bridge.TablesOK Goyang.Lemmas.TypesWellLinked.Ex.regW := by
+    refine ⟨?_, ?_⟩
+    · intro i hi
+      have hi' : i < 2 := hi
+      match i, hi' with
+      | 0, _ => rfl
+      | 1, _ => rfl
+    · intro sub kv hkv
+      cases sub with
+      | false =>
+        have hkv' : kv ∈ [("m", 0)] := hkv
+        rw [List.mem_singleton] at hkv'
+        subst hkv'
+        exact ⟨⟨0, Goyang.Lemmas.TypesWellLinked.Ex.m⟩, List.Mem.head _, rfl, rfl⟩
+      | true =>
+        have hkv' : kv ∈ [("s", 1)] := hkv
+        rw [List.mem_singleton] at hkv'
+        subst hkv'
+        exact ⟨⟨1, Goyang.Lemmas.TypesWellLinked.Ex.s⟩, List.Mem.tail _ (List.Mem.head _), rfl, rfl⟩
+  have := h _ hT Goyang.Lemmas.TypesWellLinked.Ex.linkOk_regW
+  rw [Goyang.Lemmas.TypesWellLinked.Ex.wellLinked_regW] at this
+  cases this
+
+/-- **Exactly when `specResolve` makes no claim, for a loaded registry** (`TablesOK`, `linkOk`) and a
+reference in a part of a schema: the cases `wellLinked reg = false` / `partOfSchema reg root = false`
+of `specResolve_noClaim_iff` reduce to "some (sub)module that is part of no schema has a dangling
+include or import"; the hypothesis `SeqId` follows from `TablesOK`. -/
+theorem specResolve_noClaim_iff_loaded (reg : Registry) (hT : Goyang.Lemmas.Bridge.TablesOK reg) (hok : linkOk reg = true)
+    (root : Mod) (scope : List Stmt) (t : Stmt)
+    (hroot : root ∈ reg.mods) (hsch : PartOfSchema reg root) (ht : t ∈ descendants root.stmt) (hkw : t.kw = "type")
+    (hscope : ∀ s ∈ scope, s ∈ descendants root.stmt) :
+    (∃ w, specResolve reg (specFuel reg) root scope t [] = .noClaim w) ↔
+      (∃ m ∈ reg.mods, ¬ PartOfSchema reg m ∧
+        ¬ ((m.includes.all fun i => (reg.findModule true i).isSome) = true ∧
+           (m.imports.all fun i => (reg.findModule false i).isSome) = true)) ∨
+      (chainOf reg (specFuel reg) root scope t [] ≠ .error ∧
+        ((∃ site w, UsesStar reg (root, scope, t) site ∧ Feature reg site w) ∨
+         ∃ k ls, chainOf reg (specFuel reg) root scope t [] = .ok k ls ∧ chainInClaim ls = false)) := by
+  have hid : SeqId reg := Goyang.Lemmas.TypesPartOf.seqId_of_tablesOK hT
+  have hp : partOfSchema reg root = true := partOfSchema_of_PartOfSchema reg hT root hsch
+  rw [specResolve_noClaim_iff reg hid root scope t hroot ht hkw hscope]
+  constructor
+  · rintro (hw | hp' | hc)
+    · left
+      apply Classical.byContradiction
+      intro hne
+      have : wellLinked reg = true := (wellLinked_iff_of_linkOk reg hok).mpr (fun m hm hnp =>
+        Classical.byContradiction fun hx => hne ⟨m, hm, hnp, hx⟩)
+      rw [this] at hw
+      cases hw
+    · rw [hp] at hp'; cases hp'
+    · exact Or.inr hc
+  · rintro (⟨m, hm, hnp, hx⟩ | hc)
+    · left
+      cases hw : wellLinked reg with
+      | false => rfl
+      | true => exact absurd ((wellLinked_iff_of_linkOk reg hok).mp hw m hm hnp) hx
+    · exact Or.inr (Or.inr hc)
+
+/-! ## The executable specification's reading of enum values is the RFC 7950 assignment; full agreement
+
+`assignValues` (Spec/Types.lean) folds over the members; `Spec.Enum.assign` / `table` (property C14)
+is the declarative RFC assignment.  With the members read as integers (`readMembers`,
+Lemmas/TypesAssignDefs.lean: name and `parseIntLit` of the `value` / `position` argument) the two
+coincide, up to the uniqueness of enum values, which the executable specification checks separately
+(`chainInClaim`).  Through this tie, property C14 (`text_fold`) and C15 (`asRangeInt_exact`), the enum
+table, bit table and fraction-digits of an error-free resolution are those of `inherit k ls` —
+`AgreesWithFull` — whenever the integer arguments on the chain are canonically written (`CanonInt`:
+optional `-`, digits, no superfluous leading zero; Lemmas/TypesStrBridge.lean).  Outside that form the
+two readings differ: `noncanonical_value_disagrees`. -/
+
+open Goyang.Lemmas.TypesAssign in
+/-- **`assignValues` is the RFC table**: when it answers `tab`, the members were readable as integers
+`ms`, and `tab` (names as bytes) is `Spec.Enum.table ms`, names pairwise different, values in range. -/
+theorem assignValues_table (kw : String) (lo hi : Int) (es : List Stmt) (tab : List (String × Int))
+    (h : assignValues kw lo hi es = some tab) :
+    ∃ ms, readMembers kw es = some ms ∧
+      toB tab = Goyang.Spec.Enum.table (ms.map fun p => (bytesOf p.1, p.2)) ∧
+      (tab.map (·.1)).Nodup ∧ ∀ p ∈ tab, lo ≤ p.2 ∧ p.2 ≤ hi := by
+  obtain ⟨ms, hr, ht, hn, hrg⟩ := assignValues_some h
+  subst ht
+  exact ⟨ms, hr, toB_tableS ms, hn, hrg⟩
+
+open Goyang.Lemmas.TypesAssign in
+/-- **Bit positions**: `assignValues` is exactly `Spec.Enum.assign .bits` of the members read. -/
+theorem assignValues_eq_assign_bits (kw : String) (es : List Stmt) :
+    (assignValues kw 0 4294967295 es).map toB
+      = (readMembers kw es).bind fun ms => Goyang.Spec.Enum.assign .bits (ms.map fun p => (bytesOf p.1, p.2)) :=
+  Goyang.Lemmas.TypesAssign.assignValues_eq_assign_bits (fun _ _ h => Goyang.Lemmas.TypesStrBridge.bytesOf_inj h) kw es
+
+open Goyang.Lemmas.TypesAssign in
+/-- **Enum values**: `assignValues` answers with pairwise different values exactly what
+`Spec.Enum.assign .enumeration` answers (it does not itself check that values are pairwise different:
+`chainInClaim` does). -/
+theorem assignValues_eq_assign_enum (kw : String) (es : List Stmt) :
+    ((assignValues kw (-2147483648) 2147483647 es).filter fun tab => decide ((tab.map (·.2)).Nodup)).map toB
+      = (readMembers kw es).bind fun ms => Goyang.Spec.Enum.assign .enumeration (ms.map fun p => (bytesOf p.1, p.2)) :=
+  Goyang.Lemmas.TypesAssign.assignValues_eq_assign_enum (fun _ _ h => Goyang.Lemmas.TypesStrBridge.bytesOf_inj h) kw es
+
+open Goyang.Lemmas.TypesAssign in
+/-- `AgreesWith`, and the same enum table, bit table (the model lists the members last first, names as
+bytes) and fraction-digits. -/
+def AgreesWithFull (y : YType) (st : SType) : Prop :=
+  AgreesWith y st ∧
+  y.enum.map (·.toInt) = st.enum.map (fun tab => (toB tab).reverse) ∧
+  y.bit.map (·.toInt) = st.bit.map (fun tab => (toB tab).reverse) ∧
+  y.fractionDigits = st.fd
+
+open Goyang.Lemmas.TypesAgreeFull in
+/-- **Verdict and model, inside the claim, all attributes** (`resolve_verdict_inside_claim` extended):
+when the integer arguments of the derivation chain are canonically written, an error-free resolution
+agrees with `inherit k ls` also in the enum table, the bit table and the fraction-digits, nearest
+definition winning along the chain. -/
+theorem resolve_verdict_inside_claim_full (reg : Registry) (hok : linkOk reg = true) (hwf : WfReg reg)
+    (root : Mod) (scope : List Stmt) (t : Stmt) (hin : InPlace reg (root, scope, t)) (hsch : PartOfSchema reg root)
+    (hkw : t.kw = "type") (hcl : InsideClaim reg (root, scope, t))
+    (hcanon : ∀ kind chain, DerivesFrom reg root scope t kind chain → CanonArgs chain) :
+    (chainOf reg (specFuel reg) root scope t [] = .error ∧ ¬ Resolvable reg root scope t ∧
+      (resolveType reg root scope t).2 ≠ []) ∨
+    (∃ k ls, chainOf reg (specFuel reg) root scope t [] = .ok k ls ∧ Resolvable reg root scope t ∧
+      (∀ e ∈ (resolveType reg root scope t).2, ¬ BindErr e ∧ e.cls ≠ "out-of-fuel") ∧
+      (∀ y, resolveType reg root scope t = (some y, []) → AgreesWithFull y (inherit k ls))) := by
+  rcases resolve_verdict_inside_claim reg hok hwf root scope t hin hsch hkw hcl with h | ⟨k, ls, hc, hres, hnb, hag⟩
+  · exact Or.inl h
+  · right
+    refine ⟨k, ls, hc, hres, hnb, ?_⟩
+    intro y hy
+    have hS := standing_of_wellformed (Env.of reg) hwf (env_of_linked reg hok) root scope t hin
+    have hU : UnambiguousBelow reg (root, scope, t) := hS.unamb
+    have hy0 := hy
+    unfold resolveType resolveTypeE at hy
+    simp only [Prod.mk.injEq] at hy
+    have hy' := res_eq hy.1 hy.2
+    obtain ⟨chain', hder', hfor⟩ := spec_exec_chain reg _ root scope t [] k ls hc
+    obtain ⟨k1, c1, hd1, hen, hbi, hE, hB⟩ :=
+      Goyang.Lemmas.TypesEnumRfc.resolve_chain_folds (Env.of reg) _ root scope t [] y (type_not_scope hkw) hy'
+    obtain ⟨k2, c2, hd2, hfd, hF⟩ :=
+      Goyang.Lemmas.TypesFdRfc.resolve_chain_fd (Env.of reg) _ root scope t [] y (type_not_scope hkw) hy'
+    obtain ⟨_, e1⟩ := spec_exec_chain_unique reg root scope t k1 k c1 chain' hU hd1 hder'
+    obtain ⟨_, e2⟩ := spec_exec_chain_unique reg root scope t k2 k c2 chain' hU hd2 hder'
+    subst e1 e2
+    have hc' := hcanon k c1 hder'
+    exact ⟨hag y hy0, enum_agree k hfor hc' hen hE, bit_agree k hfor hc' hbi hB, fd_agree k hfor hc' hfd hF⟩
 
 /-! ## Non-vacuity: concrete schemas on which the hypotheses of the theorems hold
 
